@@ -6,11 +6,11 @@
 # The scratch copies (/tmp/wt/iso-repo, /tmp/wt/iso-verif) are kept between calls for incremental builds;
 # remove them with `tools/try_seed_iso.sh --clean`.
 set -u
-wt=/tmp/wt/iso-repo
-vs=/tmp/wt/iso-verif
+wt=/tmp/wt/iso-repo${ISO:-}
+vs=/tmp/wt/iso-verif${ISO:-}
 if [ "${1:-}" = "--clean" ]; then rm -rf "$vs"; git -C /repo worktree remove --force "$wt" 2>/dev/null; git -C /repo worktree prune; exit 0; fi
 patch="$(readlink -f "$1")"; tier="$2"; shift 2
-exec 9>/tmp/wt/iso.lock; flock 9
+exec 9>/tmp/wt/iso${ISO:-}.lock; flock 9
 git -C /repo worktree prune
 if [ ! -d "$wt" ]; then git -C /repo worktree add -q --detach "$wt" HEAD || exit 2; fi
 # reset --hard, not checkout -- .: `git apply -3` stages what it applies, and a staged change survives a checkout
